@@ -826,6 +826,20 @@ func DefaultIntrinsics() map[string]externalFn {
 		}
 		return tuple{f, iface{}}
 	}
+	m["maps.clone"] = func(fr *frame, a []value) value {
+		src, _ := a[0].(iface)
+		om, _ := src.v.(*omap)
+		if om == nil {
+			return src
+		}
+		cp := &omap{keyType: om.keyType, index: map[string]int{}}
+		for _, e := range om.entries {
+			if !e.deleted {
+				cp.insert(e.key, copyVal(e.val))
+			}
+		}
+		return iface{t: src.t, v: cp}
+	}
 	m["internal/stringslite.Clone"] = func(fr *frame, a []value) value { return a[0] }
 	m["strings.Clone"] = func(fr *frame, a []value) value { return a[0] }
 	m["strconv.Itoa"] = func(fr *frame, a []value) value { return strconv.Itoa(cint(fr, a[0], "itoa")) }
